@@ -114,7 +114,8 @@ CHECKS = {
                  "positions hold zero (gatherFill_zero/_copy); gatherOp_moves_elements/gatherOp_wf: the executable gather over any "
                  "operand list (joins included) yields whole elements of the owning operand or zero. numpy's own index arithmetic is in the model "
                  "(Np/Model/ShapeFns.lean) with multi-index characterisations: transpose_reads / transpose_moves_elements, reshape_reads, "
-                 "expand_dims_reads, repeat_reads, tile_reads, diagonal_reads, concatenate_reads, stack_reads, swapaxes_reads, moveaxis_reads "
+                 "expand_dims_reads, repeat_reads, tile_reads, diagonal_reads, concatenate_reads, stack_reads, swapaxes_reads, moveaxis_reads, "
+                 "moveaxis_sequences_put_sources (moveaxis with sequences of axes) "
                  "(each: output shape, every listed position in range, output multi-index j reads the stated input multi-index; "
                  "rearrangements are permutations of the positions); the run compares the model's gather lists with numpy on ~770 shape/argument "
                  "combinations; likewise basic indexing with Python slice semantics, split / array_split, diag, atleast_nd, broadcast_to "
